@@ -361,6 +361,12 @@ C18_Applies(c, r, v, g) == c.rel = "mon" /\ g # <<>> /\ StableRef(g)
 C18_Fail(c, r, v, g) == If(SameOut(r, g[1].r), "MonitorTransparent")
 C18_NonTrivial(c, r, v, g) == c.n >= 3 /\ r.nev > 0
 
+(* C15 (layer-1 part) -- every concurrent call returns exactly what it returns when run alone: *)
+(* the group's reference is the sequential run, rel "conc" members ran concurrently           *)
+C15_Applies(c, r, v, g) == c.rel = "conc" /\ g # <<>>
+C15_Fail(c, r, v, g) == If(SameOut(r, g[1].r), "SequentialEquivalent")
+C15_NonTrivial(c, r, v, g) == c.n >= 3
+
 (* C09 -- components are laid out independently, side by side.             *)
 (* The group holds the solo runs of the parts (rel "part", c.part maps the *)
 (* part's node j to the union's node part[j]); the current call is the     *)
@@ -403,7 +409,7 @@ Applies(P, c, r, v, g) ==
       [] P = "C11" -> C11_Applies(c, r, v) [] P = "C12" -> C12_Applies(c, r, v)
       [] P = "C13" -> C13_Applies(c, r, v) [] P = "C14" -> C14_Applies(c, r, v)
       [] P = "C16" -> C16_Applies(c, r, v) [] P = "C17" -> C17_Applies(c, r, v, g)
-      [] P = "C18" -> C18_Applies(c, r, v, g)
+      [] P = "C18" -> C18_Applies(c, r, v, g) [] P = "C15" -> C15_Applies(c, r, v, g)
 Fail(P, c, r, v, g) ==
     CASE P = "C01" -> C01_Fail(c, r, v) [] P = "C02" -> C02_Fail(c, r, v)
       [] P = "C03" -> C03_Fail(c, r, v) [] P = "C04" -> C04_Fail(c, r, v)
@@ -413,7 +419,7 @@ Fail(P, c, r, v, g) ==
       [] P = "C11" -> C11_Fail(c, r, v) [] P = "C12" -> C12_Fail(c, r, v)
       [] P = "C13" -> C13_Fail(c, r, v) [] P = "C14" -> C14_Fail(c, r, v)
       [] P = "C16" -> C16_Fail(c, r, v) [] P = "C17" -> C17_Fail(c, r, v, g)
-      [] P = "C18" -> C18_Fail(c, r, v, g)
+      [] P = "C18" -> C18_Fail(c, r, v, g) [] P = "C15" -> C15_Fail(c, r, v, g)
 NonTrivial(P, c, r, v, g) ==
     CASE P = "C01" -> C01_NonTrivial(c, r, v) [] P = "C02" -> C02_NonTrivial(c, r, v)
       [] P = "C03" -> C03_NonTrivial(c, r, v) [] P = "C04" -> C04_NonTrivial(c, r, v)
@@ -423,7 +429,7 @@ NonTrivial(P, c, r, v, g) ==
       [] P = "C11" -> C11_NonTrivial(c, r, v) [] P = "C12" -> C12_NonTrivial(c, r, v)
       [] P = "C13" -> C13_NonTrivial(c, r, v) [] P = "C14" -> C14_NonTrivial(c, r, v)
       [] P = "C16" -> C16_NonTrivial(c, r, v) [] P = "C17" -> C17_NonTrivial(c, r, v, g)
-      [] P = "C18" -> C18_NonTrivial(c, r, v, g)
+      [] P = "C18" -> C18_NonTrivial(c, r, v, g) [] P = "C15" -> C15_NonTrivial(c, r, v, g)
 
 \* the set of <<property, clause>> pairs the returned result violates
 Violations(c, r, g) ==
